@@ -184,7 +184,7 @@ def cases(rng, thorough=False):
         add(f"{kind} batch 2", single(rng, lambda b, x: b.pool(x, kind), ifm=(2, 8, 8, 4)))
         add(f"{kind} stride 4x4 ofm 1x1", single(rng, lambda b, x: b.pool(x, kind, (4, 4), (4, 4), "VALID"), ifm=(1, 4, 4, 4)))
     # ---- fully connected ----------------------------------------------------------------------------------------
-    for ifm in ((1, 16), (4, 16), (2, 2, 16)):
+    for ifm in ((1, 16), (4, 16), (2, 2, 16), (2, 1, 1, 16), (1, 2, 2, 16)):
         add(f"fc ifm={ifm}", single(rng, lambda b, x: b.fc(x, 8), ifm=ifm))
     for dt in ("uint8", "int16"):
         add(f"fc {dt}", single(rng, lambda b, x: b.fc(x, 8), ifm=(1, 16), dtype=dt))
@@ -375,6 +375,7 @@ def cases(rng, thorough=False):
     add("STRIDED_SLICE ellipsis", single(rng, ss((0, 1, 1, 0), (1, 5, 5, 4), masks={"EllipsisMask": 1}), ifm=(1, 8, 8, 4)))
     add("STRIDED_SLICE begin_mask", single(rng, ss((0, 1, 1, 0), (1, 5, 5, 4), masks={"BeginMask": 2}), ifm=(1, 8, 8, 4)))
     add("STRIDED_SLICE end<begin", single(rng, ss((0, 5, 1, 0), (1, 5, 5, 4)), ifm=(1, 8, 8, 4)))
+    add("SPLIT batch 2", single(rng, lambda b, x: b.split(x, 2, 3), ifm=(2, 4, 4, 8)))
     add("STRIDED_SLICE batch 2", single(rng, ss((0, 1, 1, 0), (2, 5, 5, 4)), ifm=(2, 8, 8, 4)))
     # ---- operators that are never accelerated ----------------------------------------------------------------------------------------
     for which in ("custom", "floor_div", "sin_like"):
@@ -443,7 +444,7 @@ def cases(rng, thorough=False):
         for dt in ("int8", "uint8"):
             add(f"pattern {name} {dt}", single(rng, pat, dtype=dt))
     # ---- small multi-operator networks --------------------------------------------------------------------------------------------------
-    nmulti = 500 if thorough else 80
+    nmulti = 1200 if thorough else 80
     for i in range(nmulti):
         prof = rng.choice(["mixed", "cpu", "elementwise", "mixed"])
         net = netgen.random_net(rng, i, prof, max_ops=4)
